@@ -85,7 +85,7 @@ def cases(tier, seed):
                 }
                 if algo in zoo.HAS_SHARE_ENCODERS:
                     c["share_encoders"] = bool(rng.random() < 0.5) if h else True
-                if algo in ("DQN", "DDPG", "TD3", "MADDPG") and ok == "vector" and rng.random() < 0.5:
+                if algo in ("DQN", "DDPG", "TD3") and ok == "vector" and rng.random() < 0.5:
                     c["wrapper"] = "RSNorm"
                 out.append(c)
     return out
